@@ -57,8 +57,11 @@ PERTURB = [
     "reshape_same_size", "append_unit_axis", "transpose_square", "flatten",
     "drop_last_output", "duplicate_output", "swap_outputs",
     "dtype_only_f64", "dtype_only_f16_roundtrip", "swap_real_imag", "scale_1p01", "sign_flip_one", "zero_one",
+    "abs_1e-4_all", "rel_3e-5_all", "abs_3e-6_one",
 ]
-TOLS = [(1e-3, 1e-5), (1e-5, 1e-7), (0.0, 0.0), (1e-1, 1e-2)]
+TOLS = [(1e-3, 1e-5), (1e-5, 1e-7), (0.0, 0.0), (1e-1, 1e-2), (0.0, 1e-6), (1e-6, 0.0), (0, 0), (0.0, 1e-2), (1e-2, 0.0)]
+# perturbations whose size does not depend on the tolerances: run against the whole tolerance grid
+GRID_KINDS = ("identity", "abs_1e-4_all", "rel_3e-5_all", "abs_3e-6_one", "scale_1p01")
 
 
 def enumerate_cases(tier: str, seed: int) -> list[dict[str, Any]]:
@@ -72,7 +75,10 @@ def enumerate_cases(tier: str, seed: int) -> list[dict[str, Any]]:
                     # integers and booleans are compared exactly whatever tolerances the caller passes
                     if tier == "quick" and ti not in (0, 3):
                         continue
-                elif ti >= len(tols) or (ti > 0 and not k.startswith("eps") and k != "identity"):
+                elif k in GRID_KINDS:
+                    if tier == "quick" and pname not in ("float_vec", "float_large_values", "multi_out", "double_vec"):
+                        continue
+                elif ti >= len(tols) or (ti > 0 and not k.startswith("eps")):
                     continue
                 cases.append({"key": f"{pname}|{k}|tol{ti}", "prog": pname, "perturb": k, "tol": ti, "cost": 1.0})
     return recs.only_filter(cases)
@@ -133,6 +139,20 @@ def _perturb(model: onnx.ModelProto, kind: str, base_out: list[np.ndarray], rtol
         d = delta.astype(a.dtype)
         retarget(i, [_const("c18_delta", d), helper.make_node("Add", [outs[i].name, "c18_delta"], ["c18_out"])], "c18_out", tproto(a), list(a.shape))
         return m, f"{kind}: add {mult}x the allowed deviation"
+    if kind in ("abs_1e-4_all", "rel_3e-5_all", "abs_3e-6_one"):
+        i = pick({"float"})
+        if i is None:
+            return None, ""
+        a = np.asarray(base_out[i])
+        if kind == "abs_1e-4_all":
+            delta = np.full(a.shape, 1e-4)
+        elif kind == "rel_3e-5_all":
+            delta = 3e-5 * np.abs(a.astype(np.float64)) + 1e-30
+        else:
+            delta = np.zeros(a.shape, np.float64)
+            delta.flat[int(rng.integers(a.size))] = 3e-6
+        retarget(i, [_const("c18_delta", delta.astype(a.dtype)), helper.make_node("Add", [outs[i].name, "c18_delta"], ["c18_out"])], "c18_out", tproto(a), list(a.shape))
+        return m, kind
     if kind == "flip_bool":
         i = pick({"bool"})
         if i is None:
@@ -264,7 +284,7 @@ def _perturb(model: onnx.ModelProto, kind: str, base_out: list[np.ndarray], rtol
     return None, ""
 
 
-def _deviates(expected: list[np.ndarray], got: list[np.ndarray], rtol: float, atol: float, out_nchw) -> tuple[bool, str]:
+def _deviates(expected: list[np.ndarray], got: list[np.ndarray], rtol: float, atol: float, out_nchw, scale: float = 1.0) -> tuple[bool, str]:
     """Independent measurement: does ORT(M') deviate from fn beyond (rtol, atol)?"""
     if len(expected) != len(got):
         return True, "output count"
@@ -285,7 +305,7 @@ def _deviates(expected: list[np.ndarray], got: list[np.ndarray], rtol: float, at
             ok = ~nan_e
             with np.errstate(invalid="ignore"):
                 dev = np.abs(e64[ok] - g64[ok])
-                lim = atol + rtol * np.abs(e64[ok])
+                lim = (atol + rtol * np.abs(e64[ok])) * scale
                 inf_mismatch = np.isinf(e64[ok]) | np.isinf(g64[ok])
                 bad = np.where(inf_mismatch, e64[ok] != g64[ok], dev > lim * (1 + 1e-9) + 1e-300)
             if np.any(bad):
@@ -323,7 +343,13 @@ def run_case(case: dict[str, Any], tier: str, seed: int) -> dict[str, Any]:
     from vlib import registry
 
     expected = registry.eval_jax(spec["fn"], xs, {}, dp)
-    deviates, what = _deviates(expected, got, rtol, atol, kw.get("outputs_as_nchw"))
+    # |a-b| <= atol + rtol*|b| can be read with b = reference or b = model output: the two readings
+    # differ by a factor (1 +- rtol).  A deviation inside that band is not decidable from outside.
+    band = 1.0 + 2.0 * float(rtol) + 1e-3
+    deviates, what = _deviates(expected, got, rtol, atol, kw.get("outputs_as_nchw"), scale=band)
+    deviates_lo, _ = _deviates(expected, got, rtol, atol, kw.get("outputs_as_nchw"), scale=1.0 / band)
+    if deviates != deviates_lo:
+        return {"status": "skipped", "reason": "deviation_on_the_tolerance_boundary"}
     d = tempfile.mkdtemp(prefix="c18_")
     x64_before = bool(jax.config.jax_enable_x64)
     try:
